@@ -33,6 +33,8 @@ Mirrors, as they are (quirks included):
                                       pkg/segment/search/filtersearch.go :271-310 + conditioncheck.go ApplyColumnarSearchQuery
                                       (`perRecord`, records read through deGetRec)
 
+The model mirrors the code WITH the repairs c03-A … c03-E (build/patches); the former behaviour is kept under …Old names
+with counterexample theorems in Props/C03.
 A bloom filter is abstracted to its membership test (`BloomLike`); the real filter only adds false positives.
 Go maps (`allKeys`, `originalAllKeys`) are lists in insertion order with map semantics (no duplicate key, assignment
 overrides); the result of every check is independent of the iteration order (Lemmas/C03B).  Regular expressions
@@ -172,8 +174,9 @@ def wordsLoop (ci lenEq : Bool) (origs : List Bytes) :
     else wordsLoop ci lenEq origs r (i + 1)
            (insertKey ks w, if ci && lenEq then setOrig os w (origs.getD i []) else os, wc)
 
-/-- `MatchFilter.GetAllBlockBloomKeysToSearch(isCaseInsensitive)` -/
-def MatchFilter.probe (mf : MatchFilter) (ci : Bool) : Probe :=
+/-- `MatchFilter.GetAllBlockBloomKeysToSearch(isCaseInsensitive)`: every phrase without `*` is ONE key.  Until patch
+c03-A this was what the block checks consumed (hence the name); it still is the first step of `MatchFilter.probe` -/
+def MatchFilter.probeOld (mf : MatchFilter) (ci : Bool) : Probe :=
   if mf.isPhrase then
     if hasStar mf.phrase then { keys := [], orig := [], wildcard := true, op := mf.op }
     else { keys := [mf.phrase],
@@ -184,6 +187,16 @@ def MatchFilter.probe (mf : MatchFilter) (ci : Bool) : Probe :=
     let (ks, os, wc) := wordsLoop ci lenEq mf.wordsOrig mf.words 0 ([], [], false)
     { keys := ks, orig := os, wildcard := wc, op := if ks.length == 1 then .and else mf.op }
 
+/-- `getWordsOfBloomKeys` (patch c03-A): the non-empty space-separated words of the keys -/
+def wordsOfKeys (ks : List Bytes) : List Bytes :=
+  (ks.flatMap fun k => (splitSpace k).filter (fun w => !w.isEmpty)).foldl insertKey []
+
+/-- `SearchQuery.GetAllBlockBloomKeysToSearch()` for a match filter — what the block checks consume.  As repaired by
+patch c03-A: every key (a phrase, a multi-word term) is replaced by its words (operator and second-chance map unchanged) -/
+def MatchFilter.probe (mf : MatchFilter) (ci : Bool) : Probe :=
+  let p := mf.probeOld ci
+  { p with keys := wordsOfKeys p.keys }
+
 /-- a string comparison `col = value` / `col != value` as `SearchQuery.GetAllBlockBloomKeysToSearch` sees it:
 `fopEq` = the operator is Equals, `isRegex` = the value holds `*`, `orig` = OriginalColumnValue ([] / hasOrig=false = nil) -/
 def exprProbe (fopEq isRegex : Bool) (val : Bytes) (hasOrig : Bool) (orig : Bytes) (ci : Bool) : Probe :=
@@ -191,6 +204,15 @@ def exprProbe (fopEq isRegex : Bool) (val : Bytes) (hasOrig : Bool) (orig : Byte
   else if isRegex then { keys := [], orig := [], wildcard := true, op := .and }
   else if val.isEmpty then { keys := [], orig := [], wildcard := false, op := .and } -- error
   else { keys := [val], orig := if ci && hasOrig && !orig.isEmpty then [(val, orig)] else [], wildcard := false, op := .and }
+
+/-- a boolean comparison `col = true|false` / `col != …` (patch c03-C): boolean columns have no bloom, nothing is
+looked up (a `!=` never was: the function returns an error for operators other than Equals) -/
+def boolProbe : Probe := { keys := [], orig := [], wildcard := false, op := .and }
+
+/-- BEFORE patch c03-C an Equals comparison probed the TEXT of the literal ("true" / "false") -/
+def boolProbeOld (fopEq : Bool) (b : Bool) : Probe :=
+  if fopEq then { keys := [if b then [116, 114, 117, 101] else [102, 97, 108, 115, 101]], orig := [], wildcard := false, op := .and }
+  else boolProbe
 
 /-! ### the block-level check -/
 
@@ -241,8 +263,13 @@ def passRotated (allCols : Bool) (cols : Cols) (p : Probe) (negate : Bool) : Boo
   else if allCols then allColLoop (needleInCols cols p) p.op p.keys true
   else forColLoop (needleInCols cols p) p.op p.keys
 
-/-- `DoCMICheckForUnrotated` for a non-range query on an open segment (no negate test) -/
-def passUnrotated (cols : Cols) (p : Probe) : Bool :=
+/-- `DoCMICheckForUnrotated` for a non-range query on an open segment — as repaired by patch c03-B (negated match
+filters are not checked, as in `doCmiChecks`) -/
+def passUnrotated (cols : Cols) (p : Probe) (negate : Bool) : Bool :=
+  if p.wildcard || negate then true else allColLoop (needleInCols cols p) p.op p.keys true
+
+/-- BEFORE patch c03-B: no negate test -/
+def passUnrotatedOld (cols : Cols) (p : Probe) : Bool :=
   if p.wildcard then true else allColLoop (needleInCols cols p) p.op p.keys true
 
 /-! ### record level -/
@@ -280,6 +307,20 @@ def exprRaw (eq ci : Bool) (val : Bytes) (v : CVal) : Bool :=
   | .str s =>
     if eq then s.length == val.length && bytesEq ci s val else !bytesEq ci s val
   | _ => false
+
+/-- `filterOpOnDataType` for a boolean literal on a stored record — as repaired by patch c03-E: a record that is not a
+boolean (back-fill, string, number) does not match, for `=` and for `!=` (as for string literals) -/
+def boolRaw (eq : Bool) (lit : Bool) (v : CVal) : Bool :=
+  match v with
+  | .bool b => if eq then b == lit else b != lit
+  | _ => false
+
+/-- BEFORE patch c03-E such a record made the function return an ERROR (`none`), which aborts the dictionary word
+loop / the record loop of the block at that point -/
+def boolRawOld (eq : Bool) (lit : Bool) (v : CVal) : Option Bool :=
+  match v with
+  | .bool b => some (if eq then b == lit else b != lit)
+  | _ => none
 
 /-! ### building the filter: `ast.ProcessSingleFilter` for a string value -/
 
@@ -412,5 +453,28 @@ def dictMatch (mf : MatchFilter) (ci : Bool) (d : Tlv.DictRd) (recCount : Nat) :
 
 def perRecordMatch (mf : MatchFilter) (ci : Bool) (d : Tlv.DictRd) (recCount : Nat) : List Bool :=
   perRecordSearch (fun t => matchRaw mf ci (cvalOfTlv t)) d recCount
+
+/-! ### one block of `filterRecordsFromSearchQuery` whose searched column is dictionary-encoded
+
+First the dictionary stage marks records (`dictMatch`); the record loop runs only when `doRecLevelSearch`; it is the
+record loop that applies `NegateMatch` (`if matched || blockHelper.DoesRecordMatch(i) then clear else add`).  With every
+searched column dictionary-encoded the record-level result `matched` is false.  This small model of the caller is tied
+to the code by the end-to-end suites only (the function needs a whole segment reader). -/
+
+/-- the record loop after the dictionary stage; `m i` = record-level result over the columns that are not dictionary-encoded -/
+def recLoop (negate : Bool) (m : Nat → Bool) : Nat → List Bool → List Bool
+  | _, [] => []
+  | i, b :: r => (if negate then !(m i || b) else (b || m i)) :: recLoop negate m (i + 1) r
+
+/-- as repaired by patch c03-D: a negated match filter always takes the record loop; `enclosed` = the block lies
+inside the query's time range (otherwise the loop runs anyway, to test each record's time) -/
+def filterDictBlock (mf : MatchFilter) (ci : Bool) (d : Tlv.DictRd) (recCount : Nat) (enclosed : Bool) : List Bool :=
+  let bits := dictMatch mf ci d recCount
+  if !enclosed || mf.negate then recLoop mf.negate (fun _ => false) 0 bits else bits
+
+/-- BEFORE patch c03-D: the record loop (and with it the negation) was skipped for a time-enclosed block -/
+def filterDictBlockOld (mf : MatchFilter) (ci : Bool) (d : Tlv.DictRd) (recCount : Nat) (enclosed : Bool) : List Bool :=
+  let bits := dictMatch mf ci d recCount
+  if !enclosed then recLoop mf.negate (fun _ => false) 0 bits else bits
 
 end SigModel.Bloom
